@@ -74,6 +74,7 @@ def run(ctx, rep):
     for mod in ("libtw2_net::protocol", "libtw2_net::protocol7"):
         reader_size_limit(ctx.prog, rep, "R4-accepted-payload-bounded", mod)
         decompress_agreement(ctx.prog, rep, mod)
+        writer_preconditions(ctx.prog, rep, mod)
     if ctx.tier == "thorough":
         from .. import witness
         n = witness.run(ctx, rep, "R3-compile-fail-witnesses", ("W7", "W8"))
@@ -151,3 +152,52 @@ def decompress_agreement(prog, rep, mod):
            "needs_decompression() == true establishes %s; decompress_impl asserts %s" % (fmt(true_atoms), fmt(asserted)) if ok else
            "decompress_impl asserts %s but needs_decompression() == true only establishes %s: decompress_if_needed can reach the assert on attacker bytes"
            % (fmt(asserted), fmt(true_atoms)), nd.loc())
+
+
+def writer_preconditions(prog, rep, mod):
+    """R6: "whatever they accept can be written out again" -- the structural half: every value the control-packet writer
+    asserts against (`assert!(field != CONST)`) must be refused by the reader for that variant, otherwise a packet returned by
+    Packet::read makes Packet::write panic"""
+    rule = "R6-writer-preconditions-are-reader-postconditions"
+    tag = mod.split("::")[-1]
+    w = prog.bodies.get(mod + "::ControlPacket::write")
+    if w is None:
+        raise AnchorLost(mod + "::ControlPacket::write not found")
+    wir = IR(w)
+    asserts = []
+    for bi, t in w.calls():
+        if "panicking::panic" not in (t.get("callee") or ""):
+            continue
+        conds = wir.edge_conditions(bi)
+        if not conds:
+            continue
+        c, rel, v, edge, dty = conds[0]
+        if c[0] == "call" and c[1].split("::")[-1] in ("ne", "eq") and len(c[2]) == 2:
+            txt = [show(strip_sites(a)) for a in c[2]]
+            k = [x for x in txt if x.startswith("&bytes:")]
+            f = [x for x in txt if " as " in x]
+            if k and f:
+                variant = f[0].split(" as ")[1].split(")")[0]
+                asserts.append((variant, k[0][len("&bytes:"):], t.get("ln")))
+    if tag == "protocol7":
+        rep.floor(rule, len(asserts), 2, "protocol7: value asserts in ControlPacket::write")
+    r = prog.one(mod + "::Packet::read_impl")
+    bodies = [r] + [b for b in prog.bodies.values() if b.id.startswith(mod + "::Packet::read_impl::{closure")]
+    tested = set()
+    for b in bodies:
+        ir = IR(b)
+        for bi, t in b.calls():
+            f = t.get("callee") or ""
+            if f.split("::")[-1] in ("ne", "eq") and "PartialEq" in f:
+                e = ir.call_expr(bi, t)
+                txt = [show(strip_sites(a)) for a in e[2]]
+                k = [x for x in txt if x.startswith("&bytes:")]
+                o = [x for x in txt if not x.startswith("&bytes:")]
+                if k and o and "header.token" not in o[0] and ".token" not in o[0].split("(")[-1]:
+                    tested.add(k[0][len("&bytes:"):])
+    for variant, k, ln in asserts:
+        ok = k in tested
+        rep.ob(rule, "%s | %s != %s" % (tag, variant, k), ok,
+               "the reader refuses %s(%s), which the writer asserts against" % (variant, k) if ok else
+               "Packet::read accepts a control packet %s whose payload token is %s, and ControlPacket::write asserts `!= %s`: the accepted packet cannot be written out again"
+               % (variant, k, k), w.loc(ln))
